@@ -57,6 +57,19 @@ def make_seg(kind, p, heading, L):
     if kind == 'L':
         e = p + L * heading
         return Line(p, e), heading
+    if kind == 'S':
+        # a straight cubic (all control points on the chord, evenly spaced)
+        e = p + L * heading
+        return CubicBezier(p, p + (L / 3.0) * heading, p + (2 * L / 3.0) * heading, e), heading
+    if kind == 'V':
+        # collinear, second handle OVERSHOOTS the end point: the curve runs past its end and comes back,
+        # arriving with the direction of travel reversed
+        e = p + L * heading
+        return CubicBezier(p, p + (L / 2.0) * heading, p + (1.5 * L) * heading, e), -heading
+    if kind == 'W':
+        # collinear, first handle behind the start point: the curve first backs up, then runs forward
+        e = p + L * heading
+        return CubicBezier(p, p - (L / 2.0) * heading, p + (L / 2.0) * heading, e), heading
     h_out = heading * cmath.exp(-2j * BETA)
     c1 = p + (L / 3.0) * heading
     e = p + L * heading * cmath.exp(-1j * BETA)
@@ -257,6 +270,13 @@ def gen_cases(tier):
     # smoothly continuing or turning segments
     for kinds in (('D', 'L'), ('D', 'C'), ('L', 'E'), ('C', 'E'), ('D', 'E'), ('L', 'D', 'L'), ('C', 'E', 'L')):
         for a in itertools.product([0, 45, -90, 135], repeat=len(kinds) - 1):
+            for L_ in (3.0, 60.0):
+                for pr in (PARAMS[2], PARAMS[3]):
+                    yield ('open', ''.join(kinds), list(a), [L_] * len(kinds), pr)
+    # collinear cubics: straight ones, and ones whose handle overshoots an end point (the direction of
+    # travel at that end is then opposite to the chord)
+    for kinds in (('S', 'L'), ('L', 'S'), ('V', 'L'), ('V', 'C'), ('L', 'W'), ('C', 'W'), ('L', 'S', 'L'), ('L', 'V', 'L'), ('L', 'W', 'L'), ('V', 'W')):
+        for a in itertools.product([45, -90, 135], repeat=len(kinds) - 1):
             for L_ in (3.0, 60.0):
                 for pr in (PARAMS[2], PARAMS[3]):
                     yield ('open', ''.join(kinds), list(a), [L_] * len(kinds), pr)
